@@ -76,6 +76,7 @@ func startServer(dir string, portBase int, eng string) (*server.Server, *node.Na
 	nsConf.SnapCatchup = 2
 	nsConf.RaftGroupConf.GroupID = 1000
 	nsConf.RaftGroupConf.SeedNodes = append(nsConf.RaftGroupConf.SeedNodes, replica)
+	liveNsConf = nsConf
 	n, err := kv.InitKVNamespace(1, nsConf, false)
 	if err != nil {
 		return nil, nil, err
@@ -98,6 +99,8 @@ func waitApplied(n *node.NamespaceNode) {
 		time.Sleep(time.Millisecond)
 	}
 }
+
+var liveNsConf *node.NamespaceConfig
 
 func snapFiles(dir string) int {
 	m, _ := filepath.Glob(path.Join(dir, liveGroup, "snap-1", "*.snap"))
@@ -194,6 +197,42 @@ func serve(dir string, portBase int, eng string, out *os.File) {
 				time.Sleep(20 * time.Millisecond)
 			}
 			reply = "ok"
+		case "N": // N stop | N start : the raft group of the namespace is stopped / created again on the same data
+			if f[1] == "stop" {
+				n.Close()
+				for w := 0; w < 3000 && kv.GetNsMgr().GetNamespaceNode(liveGroup) != nil; w++ {
+					time.Sleep(time.Millisecond)
+				}
+				reply = "ok"
+			} else {
+				var n2 *node.NamespaceNode
+				var err error
+				for w := 0; w < 5000; w++ {
+					n2, err = kv.InitKVNamespace(1, liveNsConf, false)
+					if err == nil {
+						break
+					}
+					time.Sleep(2 * time.Millisecond)
+				}
+				if err != nil {
+					reply = "initerr"
+					break
+				}
+				if err := n2.Start(false); err != nil {
+					reply = "starterr"
+					break
+				}
+				n = n2
+				reply = "ok"
+				deadline := time.Now().Add(25 * time.Second)
+				for !(n.IsReady() && n.Node.IsLead() && n.IsNsNodeFullReady(true)) {
+					if time.Now().After(deadline) {
+						reply = "notready"
+						break
+					}
+					time.Sleep(10 * time.Millisecond)
+				}
+			}
 		case "T", "P", "K": // <prefix> <c> <term> <index>: the real NotifyTransferSnap / NotifyApplySnap handlers
 			req := &syncerpb.RaftApplySnapReq{
 				ClusterName:   f[1] + clusterName(int(atoiU(f[2]))),
@@ -433,6 +472,32 @@ func runB(l *live, pre string, ops []string) (string, error) {
 				return "", err
 			}
 			res = r
+		case "H":
+			// a batch sent while the raft group is stopped (GetNamespaceNode answers nil then): the real handler must
+			// refuse it; afterwards the group is created again on the same data (replays its log)
+			var ents []string
+			for _, e := range f[1:] {
+				if e == "" {
+					continue
+				}
+				g := strings.Split(e, ".")
+				if c := int(atoiU(g[0])); c > maxc {
+					maxc = c
+				}
+				ents = append(ents, e)
+			}
+			if r, err := l.ask("N stop"); err != nil || r != "ok" {
+				return "", fmt.Errorf("namespace stop: %v %v", r, err)
+			}
+			r, err := l.ask("B " + pre + " " + strings.Join(ents, " "))
+			if err != nil {
+				return "", err
+			}
+			res = r
+			if r2, err := l.ask("N start"); err != nil || r2 != "ok" {
+				return "", fmt.Errorf("namespace start: %v %v", r2, err)
+			}
+			restarted = true
 		case "S":
 			r, err := l.ask("S")
 			if err != nil {
@@ -493,6 +558,7 @@ func genRpcSchedule(r interface {
 	var ops []string
 	steps := 6 + r.Pick(10)
 	restarts := 0
+	downs := 0
 	// class snap: one source, one remote snapshot point handed over through the real NotifyTransferSnap /
 	// NotifyApplySnap handlers (with or without a usable checkpoint) BEFORE the first restart: the status map is
 	// volatile and what survives a crash depends on where the node's own snapshots fell, so no snapshot request is
@@ -565,6 +631,21 @@ func genRpcSchedule(r interface {
 			}
 		case x < 16:
 			ops = append(ops, "S")
+		case x < 18 && class != "snap" && downs < 1:
+			// the next entries are sent while the raft group is down: refused, the sender will send them again
+			to := cur[c] + 1 + r.Pick(2)
+			if to > len(src[c]) {
+				to = len(src[c])
+			}
+			var ents []string
+			for pos := cur[c]; pos < to; pos++ {
+				e := src[c][pos]
+				ents = append(ents, fmt.Sprintf("%d.%d.%d.%d.%d.-", e.c, e.t, e.i, e.ts, e.p))
+			}
+			if len(ents) > 0 {
+				ops = append(ops, "H:"+strings.Join(ents, ":"))
+				downs++
+			}
 		default:
 			if restarts < 2 {
 				ops = append(ops, "R:1")
